@@ -294,18 +294,25 @@ several dumps back to back in one file) -/
 /-- `_detect_compressor(fileobj)` with the cursor at `pos`: what it answers and where the cursor is afterwards.
 `peekable` (`hasattr(fileobj, "peek")`: buffered files): `first_bytes = fileobj.peek(max_prefix_len)` — the cursor
 does not move, but `peek` returns what the read buffer happens to hold after the cursor, `peeked` bytes (at least
-one unless at end of file; the buffer is refilled only when it is empty), NOT necessarily `max_prefix_len`.
+one unless at end of file; the buffer is refilled only when it is empty), NOT necessarily `max_prefix_len`;
+when it is shorter and the object is `seekable()` the code (since the F43 repair) reads `max_prefix_len` bytes and
+seeks back to where it was, so the answer no longer depends on the state of the read buffer.
 Otherwise (raw files, `io.BytesIO`, wrappers): `first_bytes = fileobj.read(max_prefix_len); fileobj.seek(0)` —
 the object is REWOUND TO BYTE 0 (intended: joblib's tests do `f = io.BytesIO(); dump(obj, f); load(f)`), while the
 magic number was looked for where the cursor was. -/
-def sniff (peekable : Bool) (peeked : Nat) (file : Bytes) (pos : Nat) : Detected × Nat :=
-  if peekable then (detect ((file.drop pos).take peeked), pos)
+def sniff (peekable : Bool) (peeked : Nat) (file : Bytes) (pos : Nat) (seekable : Bool := true) :
+    Detected × Nat :=
+  if peekable then
+    if peeked < maxPrefixLen && seekable then
+      -- (F43 repair) `position = tell(); first_bytes = read(max_prefix_len); seek(position)`
+      (detect ((file.drop pos).take maxPrefixLen), pos)
+    else (detect ((file.drop pos).take peeked), pos)
   else (detect (file.drop pos), 0)
 
 /-- `load(fileobj)`: sniff, then decode from wherever the cursor now is. -/
 def loadAt {Obj : Type} (E : Env Obj) (peekable : Bool) (peeked : Nat) (_fileName : String) (file : Bytes)
-    (pos : Nat) : Option Obj :=
-  match sniff peekable peeked file pos with
+    (pos : Nat) (seekable : Bool := true) : Option Obj :=
+  match sniff peekable peeked file pos seekable with
   | (.compat, _) => none
   | (.method n, p) => (E.decompress n (file.drop p)).bind E.unpickle
   | (.notCompressed, p) => E.unpickle (file.drop p)
